@@ -1,12 +1,12 @@
 HOOK_COMMITS = []
 
 # properties whose checks are integrated (built, run on the repaired tree, fixes applied, findings recorded)
-READY = ["C01", "C04", "C05", "C06", "C07", "C09", "C10", "C11", "C13", "C14", "C15", "C16", "C17", "C18", "C19", "C20"]
+READY = ["C01", "C02", "C04", "C05", "C06", "C07", "C08", "C09", "C10", "C11", "C12", "C13", "C14", "C15", "C16", "C17", "C18", "C19", "C20"]
 
 ENGINES = [
     {"name": "check", "path": "/verif/check", "serves_properties": [], "kind_free_text": "python driver: overlay+modfile build of harness test binaries against /repo's working tree, sharding, process-death attribution + ddmin, known-finding confirmation tier, evidence"},
     {"name": "rapid-direct", "path": "/verif/harness", "serves_properties": ["C06", "C09", "C12", "C13", "C14", "C15", "C16", "C17", "C18", "C19", "C20"], "kind_free_text": "pgregory.net/rapid property tests (plus native go fuzz targets in thorough tiers) injected next to the package under test"},
-    {"name": "mirrorsim", "path": "/verif/harness/mirrorsim", "serves_properties": ["C01", "C04", "C05", "C06", "C07", "C09", "C10", "C11"], "kind_free_text": "stateful PBT: generated op lists interpreted against one real tmmirror.Mirror inside testing/synctest bubbles, harness owns all keys, stores, channels and consumer schedules"},
+    {"name": "mirrorsim", "path": "/verif/harness/mirrorsim", "serves_properties": ["C01", "C04", "C05", "C06", "C07", "C08", "C09", "C10", "C11"], "kind_free_text": "stateful PBT: generated op lists interpreted against one real tmmirror.Mirror inside testing/synctest bubbles, harness owns all keys, stores, channels and consumer schedules"},
     {"name": "smsim", "path": "/verif/harness/smsim", "serves_properties": ["C02", "C08", "C12"], "kind_free_text": "stateful PBT: one real tmstate.StateMachine, harness plays mirror, strategy, driver, timer, signer, stores; reference model of the round rules"},
     {"name": "netsim", "path": "/verif/harness/netsim", "serves_properties": ["C03"], "kind_free_text": "stateful PBT: N real tmengine.Engine instances on a harness-owned network inside one synctest bubble; the op list is the schedule"},
 ]
